@@ -555,6 +555,9 @@ class MarkdownNormalizer(Renderer):
         self._in_heading = True
         self._current_inline_text = ""
         children_content = self.render_children(element)
+        # A setext heading may span several lines; as an ATX heading it has to be one line,
+        # or the rest of the text would fall out of the heading as a paragraph.
+        children_content = re.sub(r"(?<!\\)\n", " ", children_content)
         self._in_heading = False
         self._current_inline_text = ""
         # If heading ends with hard break, don't add extra newline
